@@ -149,7 +149,8 @@ def run(ctx):
     for bi, t in pm.calls(r'rpc::push_u32$'):
         v = pm.argv(bi, 1)
         fs = facts_at(pstates, bi)
-        if any(isinstance(x, tuple) and x[0] == 'entry' and Fn.root_of(x[1]) == ('deref', ('param', 2)) for x in walk(v)):
+        v0 = peel(v, casts=True)
+        if isinstance(v0, tuple) and v0[0] == 'entry' and Fn.root_of(v0[1]) == ('deref', ('param', 2)):
             n_ = len([1 for i_ in rep.rules[r5]['instances'] if i_['key'].startswith('port-word')]) + 1
             rep.check(r5, ci_field(v, ['port', 'dst']) and bool(fs) and all(holds(f_, 'prog_version', '==', 2) for f_ in fs), 'port-word#%d' % n_,
                       'push_u32(%s): must be client_info.port.dst, only for version 2' % short(v)[:60], pm.loc(bi))
